@@ -186,6 +186,15 @@ def shapes(tier):
             out.append(["tuple"] + list(t))
     out.append(["tuple", "string", "bool", "uint64", "bool", "bool", "byte", "bool", "string"])
     out.append(["ntuple", "string", "bool", "byte", "bool", "string"])
+    # members at byte offsets of 255 / 256 and beyond (constant offsets that no longer fit an immediate)
+    out.append(["tuple", ["sarr", "byte", 200], ["sarr", "byte", 100], "address"])
+    out.append(["tuple", ["sarr", "byte", 255], "byte", "address"])
+    out.append(["tuple", ["sarr", "byte", 254], "uint16", ["sarr", "uint8", 3]])
+    out.append(["tuple", ["sarr", "byte", 256], "uint16", ["sarr", "uint8", 3], "bool"])
+    out.append(["tuple", ["sarr", "byte", 253], "string", "address", "string"])
+    out.append(["tuple", ["sarr", "uint64", 32], "uint64", ["tuple", "uint8", "uint16"]])
+    out.append(["sarr", "address", 9])
+    out.append(["sarr", ["tuple", "uint64", "address"], 8])
     # de-duplicate
     seen, res = set(), []
     for s in out:
